@@ -218,6 +218,7 @@ type RunOpts struct {
 	Timeout  time.Duration
 	Setup    func(ctx py.Context, mod *py.Module) // optional: install extra globals
 	Filename string
+	Code     *py.Code // optional: run this code object instead of compiling src
 }
 
 // ErrClass reduces an error returned by gpython to (class name, message).
@@ -364,12 +365,17 @@ func RunProgram(src string, opts RunOpts) Result {
 			}
 			done <- res
 		}()
-		code, err := py.Compile(src, opts.Filename, opts.Mode, 0, true)
-		if err != nil {
-			res.Exc, res.ExcMsg = ErrClass(err)
-			res.Compile = true
-			return
+		code := opts.Code
+		if code == nil {
+			var err error
+			code, err = py.Compile(src, opts.Filename, opts.Mode, 0, true)
+			if err != nil {
+				res.Exc, res.ExcMsg = ErrClass(err)
+				res.Compile = true
+				return
+			}
 		}
+		var err error
 		ctx, w = NewCtx(opts.SysPaths, opts.SysArgs)
 		mod, err = ctx.Store().NewModule(ctx, &py.ModuleImpl{Info: py.ModuleInfo{FileDesc: opts.Filename}})
 		if err != nil {
